@@ -454,6 +454,14 @@ func Run(r *mc.Run) {
 		run("two-deviations-thin-base", thin, 2)
 	}
 
+	// several readers alive at once, every interleaving of their calls
+	var inter []gen.DDoc
+	for _, a := range repParas {
+		inter = append(inter, gen.DDoc{a})
+	}
+	inter = append(inter, gen.DDoc{repParas[0], repParas[3]}, gen.DDoc{repParas[4], repParas[1], repParas[6]}, gen.DDoc{repParas[2], repParas[2]})
+	interleavedScenario(r, inter)
+
 	// long physical lines: around the 4096-byte default buffer of bufio (and its multiples) and far beyond
 	lens := []int{4090, 4093, 4094, 4095, 4096, 4097, 4098, 8190, 8191, 8192, 8193, 20000}
 	if r.Quick() {
@@ -568,6 +576,13 @@ func Replay(scenario string, raw json.RawMessage) []*mc.Violation {
 		if mc.UnmarshalInput(raw, &in) == nil {
 			vs, _ := checkInvariant(scenario, in)
 			return vs
+		}
+		return nil
+	}
+	if scenario == "interleaved-readers" {
+		var in InterIn
+		if mc.UnmarshalInput(raw, &in) == nil && len(in.Texts) == len(in.Expected) {
+			return checkInterleaved(scenario, in)
 		}
 		return nil
 	}
